@@ -1703,3 +1703,18 @@ package rux
 //@   vars i
 //@   invariant 0 <= i && i <= len(buildArgs) && i % 2 == 0 && len(buildArgs) % 2 == 0 && $makemap0 != nil && fresh($makemap0)
 //@   invariant forall j int :: 0 <= j && j < i && j % 2 == 0 ==> gstr(buildArgs[j]) in $makemap0
+//
+// BuildURL / BuildRequestURL: the route is the index entry of the name (C15: the most recently registered one,
+// see appendRoute/NamedTo); an unknown name panics.
+//@ func (*Router).BuildURL [C15]
+//@   requires r != nil && varRegex != nil
+//@   panics *
+//@   modifies BuildRequestURL.path, builtOn(_), builtPath(_), builtWith(_), allentries(M), allentries(url.Values)
+//@   ensures[C15] built_for_the_route_of_that_name: r.namedRoutes[name] != nil && result != nil && builtPath(result) == r.namedRoutes[name].path
+//@   ensures[C15] callers_builder_is_used: len(buildArgs) == 1 && hastype(buildArgs[0], *BuildRequestURL) ==> builtOn(result) == cast(buildArgs[0], *BuildRequestURL)
+//@   ensures[C15] callers_map_is_used: len(buildArgs) == 1 && hastype(buildArgs[0], M) ==> builtWith(result) == cast(buildArgs[0], M)
+//@ func (*Router).BuildRequestURL [C15]
+//@   requires r != nil && varRegex != nil
+//@   panics *
+//@   modifies BuildRequestURL.path, builtOn(_), builtPath(_), builtWith(_), allentries(M), allentries(url.Values)
+//@   ensures[C15] alias_of_BuildURL: r.namedRoutes[name] != nil && result != nil && builtPath(result) == r.namedRoutes[name].path
